@@ -10,6 +10,7 @@ fuel sets `oof`".
 import Ggql.Proofs.ScanLemmas
 import Ggql.Proofs.ScanTotal
 import Ggql.Proofs.ExeTotal
+import Ggql.Proofs.SdlTotal
 import Ggql.Model.SdlCF
 import Ggql.Model.ExeCF
 namespace Ggql.C03
@@ -74,6 +75,19 @@ theorem C03_parseExe_total (hnum : ∀ b, isNumStart b = true → cm.isNum b = t
     (bytes : List UInt8) (tail : Tail) :
     (ExeCF.parseExe cm cfg (sdlFuel bytes) bytes tail).2.oof = false :=
   ExeCF.parseExe_total cm cfg hnum bytes tail
+
+/-! ### the schema scanner always returns — once the empty-token guard is there -/
+
+/-- **C03_parseSDL_total.**  With the guard of D01 in place (`emptyTokenSpins := false`), for every byte
+string given as schema text and every reader ending, `parseSDL` returns: the model never runs out of the
+fuel `2·|input| + 8`.  This covers the 13 loops of `sdlparser.go` (definitions, `extend`, arguments, fields,
+input fields, enum values, implemented interfaces, union members, directive locations) on top of the
+shared scanner, including the paths on which the Go code swallows an error and carries on.  `hq`: a
+quote is not white space (a fact about the regenerated `charMap`). -/
+theorem C03_parseSDL_total (hnum : ∀ b, isNumStart b = true → cm.isNum b = true) (hq : cm.isSpace 34 = false)
+    (bytes : List UInt8) (tail : Tail) :
+    (parseSDL cm { emptyTokenSpins := false } (sdlFuel bytes) bytes tail).2.oof = false :=
+  SdlCF.parseSDL_total cm hnum hq bytes tail
 
 /-! ### D01: a stray closing brace at top level spins `parseSDL` for ever -/
 
